@@ -10,6 +10,10 @@ CLAIMED = {
     text="Decides the structural clauses: per layer function every CFG path to a return logs exactly one recv and then exactly one terminal event of its own layer, send iff a reply is returned, lower layers entered in between (path-sensitive counting dataflow over all paths); MetaLogger forwards each event to the same-named Logger method once under <proto>_enabled; each of the 48 event methods of both loggers prints prolog(<proto>,<event>,false) first and ends with exactly one newline-terminated print; printed values derive from the packet/ClientInfo parameters; logfmt labels name the field printed. All paths, both formats, every drop reason - which sampled frames cannot give.",
     note="Assumes Display impls of pnet/std types print no newline; cross-frame interleaving is impossible (single thread).",
     technique="path-sensitive typestate dataflow on MIR + format-template decoding", ref="§4 C20"),
+ 'C09': dict(
+    text="Decides the property up to HashMap semantics and cookie collisions: crate-wide, every operation on a HashMap holding TCPControlBlock values lies in proto::tcb::{is_tcb_set,get_tcb,add_tcb}; the only growth operation is one insert behind !contains_key(same key); add_tcb has one call site, inside the flag arm that (by exhaustive evaluation of the 512 flag values) is selected only by PSH|ACK supersets, and every CFG path to it establishes generate(client_info,key) == ack-1 (mod 2^32); no table function is reachable from UDP/ICMP/ARP handling, from the application layer, or on any other TCP arm.",
+    note="Does not decide 32-bit cookie collisions between flows, nor HashMap internals.",
+    technique="who-may-call + must-pass-through gate reachability on MIR + decision-table extraction", ref="§4 C09"),
 }
 
 NOT_YET = {}
